@@ -115,6 +115,13 @@ def main(tier, seed, replay):
         if os.path.exists(binp):
             os.remove(binp)
 
+    conc = [c for c in cases if c.get("conc")]
+    cases = [c for c in cases if not c.get("conc")]
+    ck.cov["concurrent_set_during_eviction_callback_cases"] = len(conc)
+    cviol = [c for c in conc if c.get("viol")]
+    ck.oblige(not cviol, "capacity bound and exactly-once callbacks under a Set that arrives while an eviction callback is running (%d scenarios)" % len(conc), str(cviol[:1])[:1500])
+    if cviol:
+        ck.violation(ck.replay_file("conc", {"what": cviol[0]["viol"], "Case": {k: cviol[0][k] for k in ("policy", "cap", "sync", "conc")}}))
     nvict = 0
     for c in cases:
         m = victim_monitor(c)
@@ -153,6 +160,6 @@ def main(tier, seed, replay):
         ck.violation(ck.replay_file("impl", {"what": viol[0]["viol"], "Case": viol[0]}))
     elif bad:
         ck.violation(ck.replay_file("corr", {"obligation": "C15 correspondence (Cases/C15Run.agree)", "Case": cases[bad[0]]}), False)
-    elif ck.discharged != ck.obligations:
+    elif ck.discharged != ck.obligations and not ck.violations:
         ck.violation(ck.replay_file("oblig", {"obligation": ck.cov.get("failed_obligations")}), False)
     return ck.finish()
